@@ -87,13 +87,16 @@ pub fn run(ctx: &Ctx) -> Outcome {
     let cfgs = ctx.cfgs();
     let tier = ctx.tier;
     let seed = ctx.seed;
-    let reports = par_map(&cfgs, |cfg| {
-        let mut rep = Report::new(format!("{}/byte-streams", cfg.name));
+    // one unit per (configuration, front-end), plus one per configuration for the prefix clause
+    let units: Vec<(&Cfg, Option<usize>)> = cfgs.iter().flat_map(|c| (0..byte_frontends(c).len()).map(move |i| (*c, Some(i))).chain(std::iter::once((*c, None)))).collect();
+    let reports = par_map(&units, |(cfg, which)| {
+        let cfg: &Cfg = cfg;
+        let mut rep = Report::new(format!("{}/byte-streams/{}", cfg.name, which.map(|i| i.to_string()).unwrap_or_else(|| "prefix".into())));
         let bs = cfg.bs;
         let key = &keys(seed, cfg.key_len)[0];
         let lbfs = 3 * bs + 2;
         let pre = dirty(lbfs + 2 * bs + 2);
-        for (fam, dir, fe) in byte_frontends(cfg) {
+        for (fam, dir, fe) in byte_frontends(cfg).into_iter().enumerate().filter(|(i, _)| Some(*i) == *which).map(|(_, f)| f) {
             for (ivn, iv) in iv_variants(seed, bs).into_iter().skip(tier.pick(2, 1)) {
                 for (dn, data) in data_variants(seed, 0xC08, lbfs + 2 * bs + 2).into_iter().skip(tier.pick(2, 1)) {
                     let want = family_ref(cfg, &fam, dir, key, &iv, &data).0;
@@ -145,7 +148,7 @@ pub fn run(ctx: &Ctx) -> Outcome {
                     }
                     rep.count("deviation_schedules", cut_sets.len() as u64);
                     // (3) merged BFS over piece lengths
-                    let lens: Vec<usize> = if bs <= 4 { (0..=2 * bs + 1).collect() } else { vec![0, 1, 2, bs - 1, bs, bs + 1, 2 * bs - 1, 2 * bs, 2 * bs + 1] };
+                    let lens: Vec<usize> = if bs <= 4 { (0..=2 * bs + 1).collect() } else if bs <= 32 { vec![0, 1, 2, bs - 1, bs, bs + 1, 2 * bs - 1, 2 * bs, 2 * bs + 1] } else { vec![0, bs - 1, bs, bs + 1, 2 * bs - 1, 2 * bs, 2 * bs + 1] };
                     let m = ChunkMachine { fe: &fe, key, iv: &iv, data: &data[..lbfs], pre: &pre, want: &want, lens, bs };
                     let st = bfs::bfs(&m, &mut rep, 2 * lbfs + 2, 200_000, &|| false);
                     rep.count("bfs_states", st.states);
@@ -158,7 +161,7 @@ pub fn run(ctx: &Ctx) -> Outcome {
             }
         }
         // (4) one-shot CFB and CFB-8 are prefix-preserving, for two different continuations
-        for mode in ["cfb", "cfb8"] {
+        for mode in if which.is_none() { vec!["cfb", "cfb8"] } else { vec![] } {
             for dir in [Dir::Enc, Dir::Dec] {
                 let d = cfg.block_mode(mode, dir).unwrap();
                 let fe = fe_oneshot(cfg, d);
